@@ -116,6 +116,10 @@ type Result struct {
 	RoutesGw      []Route `json:"routes_gw"`
 	RoutesYaml    []Route `json:"routes_yaml"`
 	RestRegisters string  `json:"rest_registers"` // which Register* function net/rest uses
+
+	// cmd/server main(): the shutdown steps after the wait for a signal, in order (closer.go); nil + reasons when not recognised
+	CloserOrder   []string `json:"closer_order"`
+	CloserReasons []string `json:"closer_reasons"`
 }
 
 func (r *Result) EnumOK() bool  { return len(r.EnumReasons) == 0 && len(r.Enum) > 0 }
@@ -155,6 +159,10 @@ func Translate(repo, errV string) *Result {
 	t.step(&t.res.CliReasons, "client mapper", t.readCliMapper)
 	t.step(&t.res.ConstReasons, "constants", t.readConsts)
 	t.step(&t.res.RouteReasons, "routes", t.readRoutes)
+	t.step(&t.res.CloserReasons, "cmd/server main", t.readCloserOrder)
+	if len(t.res.CloserReasons) > 0 {
+		t.res.CloserOrder = nil
+	}
 	return t.res
 }
 
@@ -1004,7 +1012,6 @@ func (t *tr) readSrvMapShape(files []*ast.File, fd *ast.FuncDecl, imp map[string
 	t.finishSrv(rows, deflt, bad)
 }
 
-
 // checkErrVarFresh: "" when goName ("pkg.Var") is a package-level variable of a module package
 // defined as errors.New(...), or lives outside the module (context.*), or is not a variable name.
 func (t *tr) checkErrVarFresh(goName string) string {
@@ -1320,18 +1327,120 @@ func coqString(s string) (string, bool) {
 
 // constInt evaluates `int32(10)`, `10`, `-3`.
 func constInt(e ast.Expr) (int64, bool) {
-	if n, ok := intLit(e); ok {
-		return n, true
-	}
-	if c, ok := e.(*ast.CallExpr); ok && len(c.Args) == 1 {
-		if id, ok := c.Fun.(*ast.Ident); ok {
-			switch id.Name {
-			case "int", "int8", "int16", "int32", "int64", "uint", "uint8", "uint16", "uint32", "uint64":
-				return constInt(c.Args[0])
+	return constIntIn(nil, e, 0)
+}
+
+// pkgConst finds the package-level `const name = value` among files.
+func pkgConst(files []*ast.File, name string) (ast.Expr, bool) {
+	for _, f := range files {
+		for _, d := range f.Decls {
+			gd, ok := d.(*ast.GenDecl)
+			if !ok || gd.Tok != token.CONST {
+				continue
+			}
+			for _, sp := range gd.Specs {
+				vs := sp.(*ast.ValueSpec)
+				for i, n := range vs.Names {
+					if n.Name == name {
+						if len(vs.Values) == len(vs.Names) {
+							return vs.Values[i], true
+						}
+						return nil, false // iota-style implicit repetition: not handled
+					}
+				}
 			}
 		}
 	}
+	return nil, false
+}
+
+// constIntIn evaluates an integer constant expression: literals, conversions to an integer type, parentheses, unary minus,
+// + - * of such expressions, and the names of package-level constants of `files` defined the same way (iota and implicit
+// repetition are not handled). The result must fit an int64 at every step; anything else is "not a constant we can read".
+func constIntIn(files []*ast.File, e ast.Expr, depth int) (int64, bool) {
+	if depth > 8 {
+		return 0, false
+	}
+	if n, ok := intLit(e); ok {
+		return n, true
+	}
+	switch x := e.(type) {
+	case *ast.ParenExpr:
+		return constIntIn(files, x.X, depth+1)
+	case *ast.UnaryExpr:
+		if x.Op == token.SUB {
+			n, ok := constIntIn(files, x.X, depth+1)
+			if !ok || n == -1<<63 {
+				return 0, false
+			}
+			return -n, true
+		}
+		if x.Op == token.ADD {
+			return constIntIn(files, x.X, depth+1)
+		}
+	case *ast.CallExpr:
+		if len(x.Args) == 1 {
+			if id, ok := x.Fun.(*ast.Ident); ok {
+				switch id.Name {
+				case "int", "int8", "int16", "int32", "int64", "uint", "uint8", "uint16", "uint32", "uint64":
+					n, ok := constIntIn(files, x.Args[0], depth+1)
+					if !ok || !fitsIntType(id.Name, n) {
+						return 0, false // a conversion that does not fit does not compile (constant) or wraps (variable): not ours to guess
+					}
+					return n, true
+				}
+			}
+		}
+	case *ast.Ident:
+		if files == nil || x.Name == "iota" {
+			return 0, false
+		}
+		if _, _, _, isVar := pkgVar(files, x.Name); isVar {
+			return 0, false // a variable, not a constant
+		}
+		if v, ok := pkgConst(files, x.Name); ok && v != nil {
+			return constIntIn(files, v, depth+1)
+		}
+	case *ast.BinaryExpr:
+		a, ok1 := constIntIn(files, x.X, depth+1)
+		b, ok2 := constIntIn(files, x.Y, depth+1)
+		if !ok1 || !ok2 {
+			return 0, false
+		}
+		const lim = int64(1) << 31 // keep every intermediate far from int64 overflow
+		if a > lim || a < -lim || b > lim || b < -lim {
+			return 0, false
+		}
+		switch x.Op {
+		case token.ADD:
+			return a + b, true
+		case token.SUB:
+			return a - b, true
+		case token.MUL:
+			return a * b, true
+		}
+	}
 	return 0, false
+}
+
+func fitsIntType(ty string, n int64) bool {
+	switch ty {
+	case "int8":
+		return n >= -1<<7 && n < 1<<7
+	case "int16":
+		return n >= -1<<15 && n < 1<<15
+	case "int32":
+		return n >= -1<<31 && n < 1<<31
+	case "uint8":
+		return n >= 0 && n < 1<<8
+	case "uint16":
+		return n >= 0 && n < 1<<16
+	case "uint32":
+		return n >= 0 && n < 1<<32
+	case "uint", "uint64":
+		return n >= 0
+	}
+	return true
 }
 
 func (t *tr) readConsts() {
@@ -1345,7 +1454,7 @@ func (t *tr) readConsts() {
 		val, _, vs, ok := pkgVar(cf, v)
 		n, isInt := int64(0), false
 		if ok && val != nil {
-			n, isInt = constInt(val)
+			n, isInt = constIntIn(cf, val, 0)
 		}
 		if !isInt {
 			*R = append(*R, "client."+v+": not a package variable with an integer literal value")
@@ -1526,63 +1635,199 @@ func lookupTag(tag, key string) (string, bool) {
 	return "", false
 }
 
-// renewFormula reads renewer.Start:
+// renewFormula reads the renewal interval of renewer.Start, written in Start itself
 //
 //	if r.lockTimeoutSeconds <= A { interval = MinRenewSeconds } else { interval = max(r.lockTimeoutSeconds-B, MinRenewSeconds) }
+//
+// or in ONE package-level helper `func h(t int32) int32` that Start calls exactly once, with r.lockTimeoutSeconds as its
+// argument, and whose whole body is one of
+//
+//	if t <= A { return MinRenewSeconds }; return max(t-B, MinRenewSeconds)
+//	if t <= A { return MinRenewSeconds } else { return max(t-B, MinRenewSeconds) }
+//	var i int32; if t <= A { i = MinRenewSeconds } else { i = max(t-B, MinRenewSeconds) }; return i
 func (t *tr) renewFormula(files []*ast.File) (thr, sub int64, ok bool) {
 	fd, _ := findFunc(files, "renewer", "Start")
 	if fd == nil {
 		return 0, 0, false
 	}
+	isField := func(e ast.Expr) bool {
+		se, ok := e.(*ast.SelectorExpr)
+		return ok && se.Sel.Name == "lockTimeoutSeconds"
+	}
 	for _, s := range fd.Body.List {
-		is, isIf := s.(*ast.IfStmt)
-		if !isIf || is.Init != nil || is.Else == nil {
-			continue
+		if a, b, ok := ifAssignFormula(s, isField); ok {
+			return a, b, true
 		}
-		be, isB := is.Cond.(*ast.BinaryExpr)
-		if !isB || be.Op != token.LEQ {
-			continue
+	}
+	// through a helper
+	type cand struct {
+		name string
+		a, b int64
+	}
+	var all, found []cand
+	calls := map[string]int{}
+	ast.Inspect(fd.Body, func(n ast.Node) bool {
+		c, ok := n.(*ast.CallExpr)
+		if !ok {
+			return true
 		}
-		lhs, isSel := be.X.(*ast.SelectorExpr)
-		a, isInt := intLit(be.Y)
-		if !isSel || !isInt || lhs.Sel.Name != "lockTimeoutSeconds" {
-			continue
+		id, ok := c.Fun.(*ast.Ident)
+		if !ok {
+			return true
 		}
-		eb, isBlk := is.Else.(*ast.BlockStmt)
-		if !isBlk || len(is.Body.List) != 1 || len(eb.List) != 1 {
-			continue
+		calls[id.Name]++
+		if len(c.Args) != 1 || !isField(c.Args[0]) {
+			return true
 		}
-		thenAs, ok1 := is.Body.List[0].(*ast.AssignStmt)
-		elseAs, ok2 := eb.List[0].(*ast.AssignStmt)
-		if !ok1 || !ok2 || len(thenAs.Rhs) != 1 || len(elseAs.Rhs) != 1 || len(thenAs.Lhs) != 1 || len(elseAs.Lhs) != 1 {
-			continue
+		h, _ := findFunc(files, "", id.Name)
+		if h == nil {
+			return true
 		}
-		l1, ok1 := thenAs.Lhs[0].(*ast.Ident)
-		l2, ok2 := elseAs.Lhs[0].(*ast.Ident)
-		if !ok1 || !ok2 || l1.Name != l2.Name {
-			continue
+		p, ok := oneParam(h)
+		if !ok {
+			return true
 		}
-		if id, isId := thenAs.Rhs[0].(*ast.Ident); !isId || id.Name != "MinRenewSeconds" {
-			continue
+		isP := func(e ast.Expr) bool {
+			x, ok := e.(*ast.Ident)
+			return ok && x.Name == p
 		}
-		call, isCall := elseAs.Rhs[0].(*ast.CallExpr)
-		if !isCall || len(call.Args) != 2 {
-			continue
+		if a, b, ok := helperFormula(h.Body.List, isP); ok {
+			all = append(all, cand{id.Name, a, b})
 		}
-		if id, isId := call.Fun.(*ast.Ident); !isId || id.Name != "max" {
-			continue
+		return true
+	})
+	for _, c := range all {
+		if calls[c.name] == 1 { // called once in Start: there is one interval
+			found = append(found, c)
 		}
-		diff, isB := call.Args[0].(*ast.BinaryExpr)
-		if !isB || diff.Op != token.SUB {
-			continue
+	}
+	if len(found) == 1 {
+		return found[0].a, found[0].b, true
+	}
+	return 0, 0, false
+}
+
+// leqConst recognises `<T> <= A`.
+func leqConst(e ast.Expr, isT func(ast.Expr) bool) (int64, bool) {
+	be, ok := e.(*ast.BinaryExpr)
+	if !ok || be.Op != token.LEQ || !isT(be.X) {
+		return 0, false
+	}
+	return intLit(be.Y)
+}
+
+func isMinRenew(e ast.Expr) bool {
+	id, ok := e.(*ast.Ident)
+	return ok && id.Name == "MinRenewSeconds"
+}
+
+// maxFormula recognises `max(<T>-B, MinRenewSeconds)`.
+func maxFormula(e ast.Expr, isT func(ast.Expr) bool) (int64, bool) {
+	call, ok := e.(*ast.CallExpr)
+	if !ok || len(call.Args) != 2 {
+		return 0, false
+	}
+	if id, ok := call.Fun.(*ast.Ident); !ok || id.Name != "max" {
+		return 0, false
+	}
+	diff, ok := call.Args[0].(*ast.BinaryExpr)
+	if !ok || diff.Op != token.SUB || !isT(diff.X) || !isMinRenew(call.Args[1]) {
+		return 0, false
+	}
+	return intLit(diff.Y)
+}
+
+// ifAssignFormula recognises `if <T> <= A { v = MinRenewSeconds } else { v = max(<T>-B, MinRenewSeconds) }`.
+func ifAssignFormula(s ast.Stmt, isT func(ast.Expr) bool) (a, b int64, ok bool) {
+	is, isIf := s.(*ast.IfStmt)
+	if !isIf || is.Init != nil || is.Else == nil {
+		return 0, 0, false
+	}
+	a, ok = leqConst(is.Cond, isT)
+	if !ok {
+		return 0, 0, false
+	}
+	eb, isBlk := is.Else.(*ast.BlockStmt)
+	if !isBlk || len(is.Body.List) != 1 || len(eb.List) != 1 {
+		return 0, 0, false
+	}
+	thenAs, ok1 := is.Body.List[0].(*ast.AssignStmt)
+	elseAs, ok2 := eb.List[0].(*ast.AssignStmt)
+	if !ok1 || !ok2 || len(thenAs.Rhs) != 1 || len(elseAs.Rhs) != 1 || len(thenAs.Lhs) != 1 || len(elseAs.Lhs) != 1 {
+		return 0, 0, false
+	}
+	l1, ok1 := thenAs.Lhs[0].(*ast.Ident)
+	l2, ok2 := elseAs.Lhs[0].(*ast.Ident)
+	if !ok1 || !ok2 || l1.Name != l2.Name || !isMinRenew(thenAs.Rhs[0]) {
+		return 0, 0, false
+	}
+	b, ok = maxFormula(elseAs.Rhs[0], isT)
+	return a, b, ok
+}
+
+func retExpr(s ast.Stmt) (ast.Expr, bool) {
+	rs, ok := s.(*ast.ReturnStmt)
+	if !ok || len(rs.Results) != 1 {
+		return nil, false
+	}
+	return rs.Results[0], true
+}
+
+// helperFormula recognises the three bodies listed at renewFormula.
+func helperFormula(st []ast.Stmt, isT func(ast.Expr) bool) (a, b int64, ok bool) {
+	switch len(st) {
+	case 1, 2:
+		is, isIf := st[0].(*ast.IfStmt)
+		if !isIf || is.Init != nil || len(is.Body.List) != 1 {
+			return 0, 0, false
 		}
-		dl, isSel := diff.X.(*ast.SelectorExpr)
-		b, isInt := intLit(diff.Y)
-		if !isSel || !isInt || dl.Sel.Name != "lockTimeoutSeconds" {
-			continue
+		a, ok = leqConst(is.Cond, isT)
+		if !ok {
+			return 0, 0, false
 		}
-		if id, isId := call.Args[1].(*ast.Ident); !isId || id.Name != "MinRenewSeconds" {
-			continue
+		if r, ok := retExpr(is.Body.List[0]); !ok || !isMinRenew(r) {
+			return 0, 0, false
+		}
+		var last ast.Stmt
+		if len(st) == 2 && is.Else == nil {
+			last = st[1]
+		} else if len(st) == 1 && is.Else != nil {
+			eb, isBlk := is.Else.(*ast.BlockStmt)
+			if !isBlk || len(eb.List) != 1 {
+				return 0, 0, false
+			}
+			last = eb.List[0]
+		} else {
+			return 0, 0, false
+		}
+		r, ok := retExpr(last)
+		if !ok {
+			return 0, 0, false
+		}
+		b, ok = maxFormula(r, isT)
+		return a, b, ok
+	case 3:
+		ds, isDecl := st[0].(*ast.DeclStmt)
+		if !isDecl {
+			return 0, 0, false
+		}
+		gd, isGen := ds.Decl.(*ast.GenDecl)
+		if !isGen || gd.Tok != token.VAR || len(gd.Specs) != 1 {
+			return 0, 0, false
+		}
+		vs := gd.Specs[0].(*ast.ValueSpec)
+		if len(vs.Names) != 1 || len(vs.Values) != 0 {
+			return 0, 0, false
+		}
+		a, b, ok = ifAssignFormula(st[1], isT)
+		if !ok {
+			return 0, 0, false
+		}
+		lhs := st[1].(*ast.IfStmt).Body.List[0].(*ast.AssignStmt).Lhs[0].(*ast.Ident).Name
+		r, okR := retExpr(st[2])
+		id, isId := r.(*ast.Ident)
+		if !okR || !isId || id.Name != lhs || lhs != vs.Names[0].Name {
+			return 0, 0, false
 		}
 		return a, b, true
 	}
